@@ -287,3 +287,11 @@ def handshakes(case, ctx):
             ctx.check(s.client.field(f) == s.server.field(f), "%s differs between the peers" % f, "agree/" + f)
     finally:
         s.finish()
+
+
+# ---------------------------------------------------------------------------
+# the library against an independent implementation of the same protocols (the honest mode of the scripted peers of C09): a client /
+# server "of the same protocol" need not be this library; completion, Finished / CertificateVerify validity and data integrity are judged
+from props.c09x import scripted12 as _s12, scripted13 as _s13
+_s12.register_interop(P)
+_s13.register_interop(P)
